@@ -18,9 +18,12 @@ CONFIGS = {
     # deep construction: the arguments of a python/object/apply node are built with deep=True
     'app8': dict(MaxEvents=8, MaxDocs=1, Anchors=['a', 'b'], MapKinds=['map'], SeqKinds=['seq', 'app'], ScalarAnchors=False),
     'app9': dict(MaxEvents=9, MaxDocs=1, Anchors=['a', 'b'], MapKinds=['map', 'obj'], SeqKinds=['seq', 'app'], ScalarAnchors=False),
+    # ordered maps / pairs lists: elements are single-pair mappings, the list is a two-phase object
+    'pairs7': dict(MaxEvents=7, MaxDocs=1, Anchors=['a'], MapKinds=['map'], SeqKinds=['seq', 'pairs', 'omap'], ScalarAnchors=False),
+    'pairs9': dict(MaxEvents=9, MaxDocs=1, Anchors=['a', 'b'], MapKinds=['map'], SeqKinds=['seq', 'pairs', 'omap'], ScalarAnchors=False),
     'obj8': dict(MaxEvents=8, MaxDocs=2, Anchors=['a', 'b'], MapKinds=['map', 'obj'], SeqKinds=['seq'], ScalarAnchors=False),
 }
-TIERS = {'quick': ['core7', 'set7', 'obj7', 'app8'], 'thorough': ['core8', 'set8', 'obj8', 'app9']}
+TIERS = {'quick': ['core7', 'set7', 'obj7', 'app8', 'pairs7'], 'thorough': ['core8', 'set8', 'obj8', 'app9', 'pairs9']}
 SAFE = ['SafeLoader', 'CSafeLoader']
 FULL = ['FullLoader', 'CFullLoader']
 UNSAFE = ['UnsafeLoader', 'CUnsafeLoader', 'Loader', 'CLoader']
@@ -54,7 +57,7 @@ def print_stream(evs):
             while pos[0] < len(evs) and evs[pos[0]]['k'] != 'E':
                 items.append(node())
             pos[0] += 1
-            return anc + (APPTAG if e['t'] == 'app' else '') + '[' + ', '.join(items) + ']'
+            return anc + {'app': APPTAG, 'pairs': '!!pairs ', 'omap': '!!omap '}.get(e['t'], '') + '[' + ', '.join(items) + ']'
         if e['k'] == 'M':
             items = []
             while pos[0] < len(evs) and evs[pos[0]]['k'] != 'E':
@@ -95,6 +98,8 @@ class Exp:
             c = n['c']
             if k in ('seq', 'app'):
                 return (k, me, [go2(x) for x in c])
+            if k in ('pairs', 'omap'):       # a list of (key, value) tuples; the element mappings themselves are not built
+                return ('seq', me, [('pair', go2(self.h[x - 1]['c'][0]), go2(self.h[x - 1]['c'][1])) for x in c])
             if k == 'set':
                 return ('set', me, sorted({'s%d' % x for x in c[0::2]}))
             pairs = {}
@@ -115,7 +120,7 @@ class Exp:
             k, c = n['kind'], n['c']
             if k == 's':
                 return ('s', me, 's%d' % i)
-            if k in ('seq', 'app'):
+            if k in ('seq', 'app', 'pairs', 'omap'):
                 return ('seq', me, [go(x) for x in c])
             return ('map', me, [(go(a), go(b)) for a, b in zip(c[0::2], c[1::2])])
         return go(r)
@@ -129,6 +134,8 @@ def proj_obj(o, Obj, App=None):
             return ('s', x)
         if x is None:
             return ('s', None)
+        if type(x) is tuple and len(x) == 2:
+            return ('pair', go(x[0]), go(x[1]))
         if id(x) in ids:
             return ('ref', ids[id(x)])
         ids[id(x)] = len(ids)
